@@ -311,13 +311,22 @@ class C04(Check):
         # well-formedness shared with C16: strictly increasing, within the duration
         if any(b <= a for a, b in zip(times, times[1:])):
             out.append(Failure("timeline-not-increasing", "reported times not strictly increasing: %s" % times[:20], {"schedule": s, "times": times}))
-        only_simple_eq = all(c["kind"] == "P" and c["cond"][1] == "eq" for c in s["controls"])
-        if not only_simple_eq or rep != 0:
+        # judged: the keys written by simple `=` time controls, provided every simple control is an `=` control (period not
+        # shorter than the hydraulic step) and no rule writes one of those keys (theorems no_instant_skipped_general /
+        # _clock / event_value: rules may add solved times, they cannot move or hide the instants of these controls)
+        pcs = [c for c in s["controls"] if c["kind"] == "P"]
+        pkeys = set(c["then"][0][0] for c in pcs)
+        rkeys = set(a[0] for c in s["controls"] if c["kind"] == "R" for a in c["then"] + c["else"])
+        only_simple_eq = bool(pcs) and all(c["cond"][1] == "eq" and (c["cond"][0] == "tod" or c["cond"][3] == 0 or c["cond"][3] >= hyd) for c in pcs)
+        if not only_simple_eq or rep != 0 or (pkeys & rkeys) or (hyd > 86400):
             return out
+        ctx.count("timeline-oracle:" + ("with-rules" if rkeys else "controls-only"))
+        s_all, s = s, dict(s, controls=pcs)
+        rows = [(t, {k: v for k, v in obs.items() if k in pkeys}) for t, obs in rows]
         events = spec_timeline(s, times)
         dur = s["duration"]
         # expected values by replaying events in (instant, priority, registration) order
-        vals = {i: s["init"].get(str(i), 1) for i in range(schedgen.NT)}
+        vals = {i: s["init"].get(str(i), 1) for i in pkeys}
         ev_i = 0
         eff_instants = []
         exp_at = {}
@@ -340,10 +349,10 @@ class C04(Check):
         for t in eff_instants:
             if t <= last_time and t not in tset:
                 out.append(Failure("time-control-instant-skipped", "control instant %d s is not a solved time step (no partial step inserted)" % t,
-                                   {"schedule": s, "instant": t, "times_near": [x for x in times if abs(x - t) <= 2 * hyd]}))
+                                   {"schedule": s_all, "instant": t, "times_near": [x for x in times if abs(x - t) <= 2 * hyd]}))
                 return out
         # 2. at every reported time the targets hold the value of the latest-firing control (highest priority on ties)
-        cur = {i: s["init"].get(str(i), 1) for i in range(schedgen.NT)}
+        cur = {i: s["init"].get(str(i), 1) for i in pkeys}
         inst_sorted = sorted(t for t in exp_at)
         j = 0
         for t, obs in rows:
@@ -352,7 +361,7 @@ class C04(Check):
                 j += 1
             if obs != cur:
                 out.append(Failure("time-control-value-wrong", "at t=%d the targets are %s, the time controls require %s" % (t, obs, cur),
-                                   {"schedule": s, "time": t, "observed": obs, "expected": cur}))
+                                   {"schedule": s_all, "time": t, "observed": obs, "expected": cur}))
                 return out
         return out
 
@@ -415,6 +424,42 @@ class C04(Check):
             out.append({"hyd": hyd, "rule": rng.choice([360, 600, hyd, 700]), "report": 0, "duration": (k + 3) * hyd, "start_clock": sc,
                         "controls": ctls, "init": init})
             ctx.count("same-step-designed")
+        return out
+
+    def _mixed_schedules(self, ctx, n):
+        """designed: repeating sim-time controls (period >= hydraulic step), daily clock controls and one-shot controls on
+        keys 0-1, together with rules (range and `=` premises, then/else) on keys 2-3; rule steps chosen so that control
+        instants often coincide with rule timesteps; the `=` controls are judged by the timeline oracle, everything by the
+        model correspondence"""
+        rng = ctx.rng
+        out = []
+        for _ in range(n):
+            hyd = rng.choice([1800, 3600, 7200])
+            rule = rng.choice([300, 600, 900, 1800, hyd])
+            sc = rng.choice([0, 0, 3600 * rng.randint(1, 23), rng.randint(1, 86399)])
+            dur = rng.choice([86400 + 4 * hyd, 2 * 86400, 30 * hyd])
+            init = {str(i): rng.randint(0, 1) for i in range(schedgen.NT)}
+            ctls = []
+            for j in range(rng.randint(2, 4)):
+                key = rng.randint(0, 1)
+                kind = rng.choice(["rep", "rep", "tod", "once"])
+                t0 = rng.choice([rule * rng.randint(0, 40), hyd * rng.randint(0, 10), rng.randint(0, 20000)])
+                if kind == "rep":
+                    cond = ("sim", "eq", t0, rng.choice([hyd, 2 * hyd, 6 * 3600, 43200, 86400]))
+                elif kind == "tod":
+                    cond = ("tod", "eq", (t0 + sc) % 86400, 1, rng.choice([0, 0, 1]))
+                else:
+                    cond = ("sim", "eq", t0, 0)
+                ctls.append({"id": len(ctls), "kind": "P", "prio": rng.choice([3, 3, 1, 5]), "cond": cond, "then": [(key, rng.randint(0, 1))], "else": []})
+            for j in range(rng.randint(1, 3)):
+                key = rng.randint(2, 3)
+                t0 = rng.choice([rule * rng.randint(0, 40), rng.randint(0, 30000)])
+                cond = rng.choice([("sim", "ge", t0, 0), ("sim", "eq", t0, 0), ("tod", "gt", (t0 + sc) % 86400, 1, 0),
+                                   ("and", ("sim", "ge", t0, 0), ("sim", "lt", t0 + rng.randint(1, 20000), 0))])
+                els = [(key, rng.randint(0, 1))] if rng.random() < 0.4 else []
+                ctls.append({"id": len(ctls), "kind": "R", "prio": rng.choice([3, 1, 5]), "cond": cond, "then": [(key, rng.randint(0, 1))], "else": els})
+            out.append({"hyd": hyd, "rule": rule, "report": 0, "duration": dur, "start_clock": sc, "controls": ctls, "init": init})
+            ctx.count("mixed-designed")
         return out
 
     def _start_schedules(self, ctx, n):
@@ -665,6 +710,7 @@ class C04(Check):
             scheds.append(s)
         scheds += self._same_step_schedules(ctx, 16 if ctx.quick else 120)
         scheds += self._start_schedules(ctx, 16 if ctx.quick else 120)
+        scheds += self._mixed_schedules(ctx, 16 if ctx.quick else 120)
         self._run_schedules(ctx, failures, broken, scheds, "random")
         self._rule_grid_oracle(ctx, failures)
         self._rule_priority_oracle(ctx, failures)
@@ -684,6 +730,7 @@ class C04(Check):
                     c["cond"] = (c["cond"][0], "eq") + tuple(c["cond"][2:])
         scheds += self._same_step_schedules(ctx, 40)
         scheds += self._start_schedules(ctx, 40)
+        scheds += self._mixed_schedules(ctx, 40)
         self._run_schedules(ctx, failures, b2, scheds, "search")
         self._rule_grid_oracle(ctx, failures)
         self._rule_priority_oracle(ctx, failures)
